@@ -9,7 +9,8 @@ impl<const BITS: usize, const LIMBS: usize> Uint<BITS, LIMBS> {
     #[inline]
     #[must_use]
     pub fn checked_log(self, base: Self) -> Option<usize> {
-        if base < Self::from(2) || self.is_zero() {
+        // `base < 2`, written so that it also works when `2` does not fit `Self`.
+        if base <= Self::ONE || self.is_zero() {
             return None;
         }
         Some(self.log(base))
@@ -21,7 +22,12 @@ impl<const BITS: usize, const LIMBS: usize> Uint<BITS, LIMBS> {
     #[inline]
     #[must_use]
     pub fn checked_log10(self) -> Option<usize> {
-        self.checked_log(Self::from(10))
+        match Self::try_from(10_u64) {
+            Ok(base) => self.checked_log(base),
+            // Every non-zero value is less than ten.
+            Err(_) if self.is_zero() => None,
+            Err(_) => Some(0),
+        }
     }
 
     /// Returns the base 2 logarithm of the number, rounded down.
@@ -32,7 +38,10 @@ impl<const BITS: usize, const LIMBS: usize> Uint<BITS, LIMBS> {
     #[inline]
     #[must_use]
     pub fn checked_log2(self) -> Option<usize> {
-        self.checked_log(Self::from(2))
+        if self.is_zero() {
+            return None;
+        }
+        Some(self.bit_len() - 1)
     }
 
     /// Returns the logarithm of the number, rounded down.
@@ -96,7 +105,7 @@ impl<const BITS: usize, const LIMBS: usize> Uint<BITS, LIMBS> {
     #[inline]
     #[must_use]
     pub fn log10(self) -> usize {
-        self.log(Self::from(10))
+        self.checked_log10().expect("logarithm of zero")
     }
 
     /// Returns the base 2 logarithm of the number, rounded down.
@@ -107,7 +116,7 @@ impl<const BITS: usize, const LIMBS: usize> Uint<BITS, LIMBS> {
     #[inline]
     #[must_use]
     pub fn log2(self) -> usize {
-        self.log(Self::from(2))
+        self.checked_log2().expect("logarithm of zero")
     }
 
     /// Double precision logarithm.
